@@ -1,19 +1,19 @@
 import KinModel.Lemmas.C04Local2
 namespace KinModel.DocValidate
 
-theorem schemaType_all (o : Opts) (a : Attrs) (hi : Bool) (ty : String) :
-    ((schemaTypeViols a hi ty).all fun v => !enabled o v) = schemaTypeOKCode o a hi ty := by
-  unfold schemaTypeViols schemaTypeOKCode
+theorem schemaType_all (T : Table) (o : Opts) (a : Attrs) (hi : Bool) (ty : String) :
+    ((schemaTypeViols a hi ty).all fun v => !enabled o v) = schemaTypeOKCode (patCompiles T [] o) o a hi ty := by
+  unfold schemaTypeViols schemaTypeOKCode patCompiles
   simp (disch := decide) only [List.all_append, all_when, enabled_plain]
-  simp only [enabled]
+  simp only [enabled, List.contains_nil, Bool.and_false, Bool.false_or]
   cases hk : knownTypes.contains ty
   Â· simp
   Â· generalize formatKnown ty (a.str "format") = F
-    generalize badPatterns.contains (a.str "pattern") = P
+    generalize uncompilable (a.str "pattern") = P
     generalize (a.str "pattern" != "") = Q
     generalize (decide (ty = "number") || decide (ty = "integer") || decide (ty = "string")) = N
     cases N <;> cases F <;> cases o.fmtEnabled <;> cases decide (ty = "string") <;> cases P <;> cases Q <;>
-      cases o.patDisabled <;> cases decide (ty = "array") <;> cases hi <;> rfl
+      cases o.patDisabled <;> cases o.customRegex <;> cases decide (ty = "array") <;> cases hi <;> rfl
 
 theorem localOK_schema (T : Table) (o : Opts) (a : Attrs) (kids : List (String Ã— Doc)) (vs : List Bool)
     (hT : TableOK T = true) :
@@ -22,8 +22,8 @@ theorem localOK_schema (T : Table) (o : Opts) (a : Attrs) (kids : List (String Ã
   have hf := tableFacts T hT
   have hd : hasCheck T o a .schema "default" = !o.defDisabled := anyHolds_as o a _ _ hf.sDefault
   have he : hasCheck T o a .schema "example" = !o.exDisabled := anyHolds_as o a _ _ hf.sExample
-  simp (disch := decide) only [localOK, rulesOK, violations, Doc.kind, Doc.attrs, schemaOKCode, List.all_append, all_when,
-    extra_all, hx, hd, he, enabled_plain, List.all_flatMap, schemaType_all]
+  simp (disch := decide) only [localOK, localOKp, rulesOK, violations, Doc.kind, Doc.attrs, schemaOKCode, List.all_append, all_when,
+    extra_all, hx, hd, he, enabled_plain, List.all_flatMap, schemaType_all T]
   simp only [enabled]
   generalize schemaDefaultsOK a = D
   generalize schemaExamplesOK a = E
